@@ -36,10 +36,22 @@ the XML of the shape serialised and re-parsed with *bare* lxml (no python-pptx e
     groups from the modified one up to the top): `a:off/a:ext` and `a:chOff/a:chExt` (bare lxml) and
     left/top/width/height (API, groups on the path) equal the bounding box of the group's member
     shapes' observed (x, y, cx, cy); sub-groups count with their own off/ext, which are themselves
-    checked, hence "recursively". Empty groups are skipped. A group that was already inconsistent
-    before a step is not reported again at that step (its breakage was reported when it happened; absence
-    of any report still implies the invariant at every step by induction), and per step only the lowest
-    wrong group on the path is reported. For connector and freeform members the
+    checked, hence "recursively". Empty groups are skipped.
+    RESIZE (prefix-only operation): `g.left, g.top, g.width, g.height = v` through the public GroupShape
+    setters, g = any non-empty group, v in {(50,70,900,700), (150,250,50,30)}. It produces the states in
+    which a:off/a:ext differ from a:chOff/a:chExt (as in files where PowerPoint scaled a group). Model:
+    the group keeps the assigned position/size until the next addition into it or into a descendant;
+    no verdict is taken on the setters themselves (not part of C17; only vacuity bookkeeping). Prefix
+    sets with a resize: quick (add over 9 kinds x 3 geometries, resize); thorough (add over the full
+    alphabet, resize), (add, add, resize) and (add, resize, add) over {autoshape, subgroup-new} x 3
+    geometries; each followed by the full addition alphabet on every group, which includes additions
+    lying inside the member bounding box (child extents unchanged) of the resized group, of its
+    descendants and of unrelated groups.
+    Obligation per addition: the group that received the member and ALL its ancestors must equal their
+    members' bounding box afterwards, whatever their state before (resized, stale). A group off that
+    path is reported only if it was consistent before the step and is not after it (a group resized
+    earlier, or broken by an earlier and already reported step, is not re-reported). Per step only the
+    lowest wrong group on the path is reported. For connector and freeform members the
     observed member box must equal the requested one (those two are covered by the other clauses of the
     statement); for the other kinds the observed box is simply used.
 
@@ -60,7 +72,8 @@ Signatures:  C17|connector|<rule>|op=<coord>|from=<lt|eq|gt>,to=<lt|eq|gt>,flip=
              C17|group-extents|member-kind=<k>|depth=<d>      (d = number of levels ABOVE the modified
              group at which the lowest wrong group sits: 0 = the group that received the member; this
              makes one signature per defect rather than one per nesting depth; `off-path` for a group
-             that is not an ancestor)         C17|group-child-extents|... (only chOff/chExt wrong)
+             that is not an ancestor); suffix `|after-resize` when a group on the path had been
+             moved/resized through the setters          C17|group-child-extents|... (only chOff/chExt wrong)
              C17|freeform|<rule>|<class>
 """
 
@@ -1157,12 +1170,14 @@ def run(ctx):
                            "additions after a resize" % (c.get("group_resize_not_as_modelled", 0),
                                                          c.get("group_scaled_states_reached", 0),
                                                          c.get("group_additions_inside_bbox_after_resize", 0)))
-    # the implementation distinguishes exactly the states the reference model distinguishes (a history is
-    # its tree; an addition into a resized group snaps it back, merging with the history without the resize)
-    if clean and g_states != model_states:
-        raise HarnessError("group states %d != reference-model states %d" % (g_states, model_states))
-    if clean and not (1 + leaf - c.get("group_additions_after_resize", 0) <= g_states <= 1 + leaf + exp_prefix):
-        raise HarnessError("group states %d outside [1 + leaf - merged, 1 + leaf + prefix states]" % g_states)
+    # the implementation state key (serialised tree, shape ids included) is at least as fine as the
+    # reference model's (tree of kinds/boxes): histories that interleave additions to different groups give
+    # equal model trees but different shape ids; an addition into a resized group snaps it back and merges
+    # with the history without the resize in both
+    if clean and g_states < model_states:
+        raise HarnessError("group states %d < reference-model states %d" % (g_states, model_states))
+    if clean and g_states > 1 + leaf + exp_prefix:
+        raise HarnessError("group states %d > 1 + leaf operations + prefix operations" % g_states)
 
     # ---- (3) freeform --------------------------------------------------------------------------------
     before = dict(ctx.counters)
